@@ -809,6 +809,20 @@ Definition c07_ok (p : pkt) (r : result) (changed : list N) (inlen outlen : N) :
 Definition patch (p : pkt) (ci ch rsv : N) (infos : list info) : pkt :=
   with_meta (with_infos p infos) ci ch rsv.
 
+(** compact constructors used by the runner (number literals are expensive to parse):
+    several fields packed into one number, byte strings as (length, big-endian value) *)
+Fixpoint be_bytes (k : nat) (n : N) : list N :=
+  match k with
+  | O => []
+  | S k' => be_bytes k' (n / 256) ++ [n mod 256]
+  end.
+Definition bytesc (len n : N) : list N := be_bytes (N.to_nat len) n.
+(** f = ExpTime * 2^40 + ConsIngress * 2^24 + ConsEgress * 2^8 + reserved ; m = the 6 MAC bytes *)
+Definition hopc (ialert ealert : bool) (f m : N) : hop :=
+  mkHop ialert ealert (f / 1099511627776 mod 256) (f / 16777216 mod 65536) (f / 256 mod 65536)
+        (be_bytes 6 m) (f mod 256).
+Definition macc (sid ts e i g m : N) : mac_entry := (sid, ts, e, i, g, be_bytes 6 m).
+
 (** * Cases of the correspondence check *)
 Inductive case :=
 | CConst (k v : N)     (* Go constant number k has value v *)
